@@ -14,7 +14,7 @@ ObsActive(ev) ==
 \* the listing is consistent: no unknown ids, and the per-resource listings agree with the global one
 ListingOK(ev, A) ==
     /\ \A id \in SeqToSet(ev.after.all) : \E r \in A : r.id = id
-    /\ Cardinality(A) = Len(ev.after.all)
+    \* (a rule kept twice may be listed twice: multiplicities are not compared)
     /\ ev.fam # "sys" =>
          \A k \in DOMAIN ev.after.res :
             SeqToSet(ev.after.res[k]) = {r.id : r \in {x \in A : x.res = k}}
